@@ -5,25 +5,26 @@
 # With INPLACE=1 the change is applied to /repo instead (and undone afterwards), exactly as the brief
 # describes; the default avoids disturbing checks of /repo that run at the same time.
 set -u
-D=/verif/seeded/$1; shift
+V=${VERIF_ROOT:-/verif}
+D=$V/seeded/$1; shift
 P=$(python3 -c "import json;print(json.load(open('$D/meta.json'))['property'])")
 CHECKS=${@:-$P}
 if [ "${INPLACE:-0}" = "1" ]; then
   git -C /repo diff --quiet || { echo "/repo dirty"; exit 2; }
   git -C /repo apply $D/patch.diff || { echo "patch does not apply"; exit 3; }
   for c in $CHECKS; do
-    out=$(cd /verif && ./check $c --tier ${TIER:-quick} 2>&1); rc=$?
+    out=$(cd $V && ./check $c --tier ${TIER:-quick} 2>&1); rc=$?
     echo "$(basename $D) check=$c rc=$rc $(echo "$out" | grep -c '^VIOLATION') violation line(s): $(echo "$out" | grep '^VIOLATION' | head -2 | tr '\n' ' ') $(echo "$out" | tail -1)"
   done
   git -C /repo checkout -- .
   exit 0
 fi
-C=/tmp/mut/$(basename $D)
-rm -rf $C; mkdir -p /tmp/mut
+C=${MUT_DIR:-/tmp/mut}/$(basename $D)
+rm -rf $C; mkdir -p ${MUT_DIR:-/tmp/mut}
 rsync -a --exclude .git /repo/ $C/ || exit 2
 ( cd $C && patch -p1 -s < $D/patch.diff ) || { echo "patch does not apply"; rm -rf $C; exit 3; }
 for c in $CHECKS; do
-  out=$(cd /verif && VERIF_REPO=$C ./check $c --tier ${TIER:-quick} 2>&1); rc=$?
+  out=$(cd $V && VERIF_REPO=$C ./check $c --tier ${TIER:-quick} 2>&1); rc=$?
   echo "$(basename $D) check=$c rc=$rc $(echo "$out" | grep -c '^VIOLATION') violation line(s): $(echo "$out" | grep '^VIOLATION' | head -2 | tr '\n' ' ') $(echo "$out" | tail -1)"
 done
-rm -rf $C /verif/work-$(echo $C | sed 's/[^A-Za-z0-9]\+/_/g; s/^_//; s/_$//')
+rm -rf $C $V/work-$(echo $C | sed 's/[^A-Za-z0-9]\+/_/g; s/^_//; s/_$//')
